@@ -29,7 +29,39 @@ RULES = {
 }
 
 
+FLOWFN = "def {n}():\n    a = src()\n    snk(a)\n"
+SITES = "def src():\n    return 'tainted'\ndef snk(v):\n    return None\n"
+
+RULES.update({
+    "dir:api+f": {"unit_path": "/api/", "method_list": ["f"]},
+    "dir:internal+f": {"unit_path": "/internal/", "method_list": ["f"]},
+    "name:handlers+f": {"unit_name": "handlers.py", "method_list": ["f"]},
+    "main": {"method_list": ["main"]},
+    "e1": {"method_list": ["e1"]}, "e2": {"method_list": ["e2"]}, "e3": {"method_list": ["e3"]}, "e4": {"method_list": ["e4"]},
+    "e123": {"method_list": ["e1", "e2", "e3"]}, "e1234": {"method_list": ["e1", "e2", "e3", "e4"]},
+})
+VARIANT_RULES = {
+    2: ["dir:api+f", "dir:internal+f", "name:handlers+f", "f", "main", "init"],
+    3: ["e1", "e2", "e3", "e4", "e123", "e1234"],
+}
+
+
 def project(top_level, variant):
+    if variant == 2:
+        # same base name in different directories, and a package directory called `externs`
+        files = {"api/handlers.py": SITES + FLOWFN.format(n="f"),
+                 "internal/handlers.py": SITES + FLOWFN.format(n="f"),
+                 "jobs/worker.py": SITES + FLOWFN.format(n="f") + FLOWFN.format(n="main"),
+                 "externs/plugin.py": SITES + FLOWFN.format(n="main") + ("t = src()\nsnk(t)\n" if top_level else "")}
+        return files
+    if variant == 3:
+        # several entries reaching the same call site inside a shared non-entry caller
+        body = SITES + "def leaf():\n    b = src()\n    snk(b)\ndef helper():\n    leaf()\n"
+        for i in (1, 2, 3, 4):
+            body += f"def e{i}():\n    helper()\n"
+        if top_level:
+            body += "w = 1\n"
+        return {"multi.py": body}
     alpha = ("def src():\n    return 'tainted'\ndef snk(v):\n    return None\n"
              "def f():\n    a = src()\n    snk(a)\n"                                   # flow inside f (nobody calls f)
              "def g():\n    helper()\n"
@@ -63,7 +95,7 @@ def rule_selects(rule, fname, mname, lang="python"):
         return False
     if rule.get("unit_name") and rule["unit_name"] not in fname:
         return False
-    if rule.get("unit_path") and rule["unit_path"] not in fname:
+    if rule.get("unit_path") and rule["unit_path"] not in "/" + fname:
         return False
     if rule.get("method_list") and mname not in rule["method_list"]:
         return False
@@ -85,7 +117,10 @@ def settings_for(rule_names):
     return st
 
 
-CALLS = {("alpha.py", "g"): [("alpha.py", "helper")], ("gamma.py", "g"): [("alpha.py", "helper")]}
+CALLS = {("alpha.py", "g"): [("alpha.py", "helper")], ("gamma.py", "g"): [("alpha.py", "helper")],
+         ("multi.py", "helper"): [("multi.py", "leaf")]}
+for _i in (1, 2, 3, 4):
+    CALLS[("multi.py", f"e{_i}")] = [("multi.py", "helper")]
 SRC_SNK = {"src", "snk"}
 
 
@@ -100,13 +135,14 @@ def main():
     runner.preload_taint_rule_files()
     rep = findings.Reporter(PID)
     quick = common.tier() == "quick"
-    projs = [(tl, v) for tl in (True, False) for v in ((0,) if quick else (0, 1))]
-    names = list(RULES)
-    rule_sets = [()] + [(a,) for a in names] + list(itertools.combinations(names, 2))
+    projs = [(tl, v) for tl in (True, False) for v in ((0, 2, 3) if quick else (0, 1, 2, 3))]
+    base_names = [n for n in RULES if n not in {x for lst in VARIANT_RULES.values() for x in lst} or n in ("f", "init")]
     cases = []
     meta = []
     for tl, v in projs:
         files = project(tl, v)
+        names = VARIANT_RULES.get(v, base_names)
+        rule_sets = [()] + [(a,) for a in names] + list(itertools.combinations(names, 2))
         for rs in rule_sets:
             cases.append((files, rs))
             meta.append((tl, v, rs))
@@ -170,6 +206,23 @@ def main():
             ident = f"top_level={tl} variant={v} rules={list(rs)}"
             rep.violation("flows-not-union", f"flows under {list(rs)} = {got}, union of the single-rule runs = {union} [{ident}]",
                           {"top_level": tl, "variant": v, "rules": list(rs)}, size=2, ident=ident)
+    # per entry: what a start contributes does not depend on which other starts are selected
+    per_entry = 0
+    single = {}
+    for (tl, v, rs), res in results.items():
+        by = {tuple(e): sorted(map(lambda f: (tuple(f[0]), tuple(f[1])), fl)) for e, fl in res.get("flows_by_entry", [])}
+        eps = [tuple(e) for e in res["entry_points"]]
+        if len(eps) == 1:
+            single.setdefault((tl, v, eps[0]), by.get(eps[0], []))
+    for (tl, v, rs), res in results.items():
+        by = {tuple(e): sorted(map(lambda f: (tuple(f[0]), tuple(f[1])), fl)) for e, fl in res.get("flows_by_entry", [])}
+        for e in [tuple(x) for x in res["entry_points"]]:
+            if (tl, v, e) in single and len(res["entry_points"]) > 1:
+                per_entry += 1
+                if by.get(e, []) != single[(tl, v, e)]:
+                    ident = f"top_level={tl} variant={v} rules={list(rs)}"
+                    rep.violation("entry-flows-depend-on-other-entries", f"start {e} yields flows {by.get(e, [])} here but {single[(tl, v, e)]} when "
+                                  f"it is the only start [{ident}]", {"top_level": tl, "variant": v, "rules": list(rs)}, size=len(rs), ident=ident)
     # flows of the empty rule set must be empty; every flow must lie in code reachable from a start
     for (tl, v, rs), res in results.items():
         if not rs and res["flows"]:
@@ -182,7 +235,7 @@ def main():
                 "non-trivial = distinct (expected start set, reported flow set) outcomes observed",
         "samples": [{"top_level": m[0], "variant": m[1], "rules": list(m[2])} for m in meta[:2] + meta[20:22] + meta[-1:]],
         "exhaustive": True, "rule_alphabet": {k: {a: b for a, b in v.items()} for k, v in RULES.items()},
-        "runs_with_selected_entries": stats["with_entries"], "runs_with_flows": stats["with_flows"], "union_comparisons": diffs,
+        "runs_with_selected_entries": stats["with_entries"], "runs_with_flows": stats["with_flows"], "union_comparisons": diffs, "per_entry_flow_comparisons": per_entry,
     }, t.wall(), new, known=known, assumptions=[
         "file names are chosen so that equality, suffix and substring readings of unit_name / unit_path coincide",
         "the unimplemented args / return_type rule fields are not used; no generated method carries attributes",
